@@ -88,6 +88,48 @@ def write_replay(prop, n, payload):
     return path
 
 
+def check_lemmas(cfg):
+    """Code-independent mathematical lemmas the SMT contracts lean on (cfg.LEMMAS: Lean 4 + Mathlib files under /verif/lemmas) are
+    re-checked by `lean`; the verdict is cached under .work keyed by the hash of the file and the Lean version (a lemma does not depend
+    on /repo).  -> (list of evidence records, list of problems)"""
+    import hashlib
+    import shutil
+    recs, problems = [], []
+    files = getattr(cfg, "LEMMAS", [])
+    if not files:
+        return recs, problems
+    lean = shutil.which("lean")
+    if lean is None:
+        return recs, ["lean is not installed: lemma files cannot be checked"]
+    ver = subprocess.run([lean, "--version"], capture_output=True, text=True).stdout.strip()
+    os.makedirs(os.path.join(ROOT, ".work", "lemmas"), exist_ok=True)
+    for rel in files:
+        path = os.path.join(ROOT, rel)
+        src = open(path).read()
+        sha = hashlib.sha256((ver + "\n" + src).encode()).hexdigest()[:16]
+        # mechanical scan: nothing assumed inside the lemma file
+        import re as _re
+        code = _re.sub(r"/-.*?-/", "", src, flags=_re.S)
+        code = "\n".join(ln.split("--")[0] for ln in code.splitlines())
+        banned = [w for w in ("sorry", "admit", "axiom", "native_decide", "unsafe") if _re.search(r"\b" + w + r"\b", code)]
+        if banned:
+            problems.append(f"{rel}: contains {banned}")
+            continue
+        stamp = os.path.join(ROOT, ".work", "lemmas", os.path.basename(rel) + "." + sha + ".ok")
+        t0 = time.time()
+        cached = os.path.exists(stamp)
+        if not cached:
+            p = subprocess.run([lean, path], capture_output=True, text=True, timeout=1500)
+            out = (p.stdout + p.stderr).strip()
+            if p.returncode != 0 or "error" in out:
+                problems.append(f"{rel}: rejected by lean: {out[:400]}")
+                continue
+            open(stamp, "w").write(out)
+        theorems = _re.findall(r"^theorem\s+([A-Za-z0-9_']+)", src, flags=_re.M)
+        recs.append(dict(file=rel, sha256_16=sha, checker=ver, theorems=theorems, seconds=round(time.time() - t0, 2), cached=cached))
+    return recs, problems
+
+
 def run_rac(cfg, tier, seed, budget):
     """-> (result dict | None, error text)"""
     script = getattr(cfg, "RAC", None)
@@ -168,6 +210,13 @@ def main(argv=None):
                 reports += oreps
         except Exception:
             broken.append("proof engine crashed:\n" + traceback.format_exc())
+    lemma_recs = []
+    if not a.no_proof:
+        try:
+            lemma_recs, lemma_problems = check_lemmas(cfg)
+            broken += lemma_problems
+        except Exception:
+            broken.append("lemma check crashed:\n" + traceback.format_exc())
     n_obl = sum(len(r.real) for r in reports)
     n_dis = sum(len(r.real) - len(r.undischarged()) for r in reports)
     refuted, undecided, stale, failed = [], [], [], []
@@ -293,6 +342,7 @@ def main(argv=None):
         proof_incomplete=[o.name for (_, o, _) in undecided], proof_refuted=[o.name for (_, o, _) in refuted + failed],
         proof_stale=[r.contract.qualname for r in stale],
         slow_obligations=[dict(seconds=t, obligation=nm, backend=b) for t, nm, b in slow],
+        lemmas_checked=lemma_recs,
     )
     if rac:
         cov.update(evaluations=rac["evaluations"], distinct_nontrivial=rac["distinct_nontrivial"],
